@@ -233,7 +233,7 @@ def _get_guard(mod):
     if key not in _GUARDS:
         from mc import seams
         import numqi  # noqa
-        _GUARDS[key] = seams.ImmutabilityGuard(prefixes, getattr(mod, 'GUARD_EXCLUDE', ())).install()
+        _GUARDS[key] = seams.ImmutabilityGuard(prefixes, getattr(mod, 'GUARD_EXCLUDE', ()), getattr(mod, 'GUARD_LAYOUT', ())).install()
     return _GUARDS[key]
 
 
@@ -247,7 +247,11 @@ def _execute_case(mod, case, env):
         mod.run_case(case, out, env)
         if guard is not None:
             for qual, idx in guard.drain():
-                out.violation('immutability/%s/argument_modified' % qual, '%s modified its argument %s in place' % (qual, idx))
+                if isinstance(idx, str) and idx.startswith('layout:'):
+                    out.violation('layout/%s/result_depends_on_memory_layout' % qual,
+                                  '%s gives a different result (%s) when its array arguments are handed over in another memory layout (Fortran order / strided view)' % (qual, idx[7:]))
+                else:
+                    out.violation('immutability/%s/argument_modified' % qual, '%s modified its argument %s in place' % (qual, idx))
     except Exception as e:  # safety net: crash inside numqi == violation; crash in harness == harness error
         site = exc_site(e)
         tb = traceback.format_exc()
